@@ -18,8 +18,8 @@ use crate::{vensure, vfail};
 #[derive(Clone, Debug, Serialize, Deserialize, PartialEq, Eq, Hash)]
 pub enum Act {
     /// write up to n bytes into input_buffer and parse them; dest = Some(capacity) or None
-    Feed { n: u16, dest: Option<u16> },
-    Parse0 { dest: Option<u16> },
+    Feed { n: u16, dest: Option<u32> },
+    Parse0 { dest: Option<u32> },
     ConsumeStream(u16),
     Compress,
     ConsumeOutput(u16),
@@ -52,6 +52,10 @@ pub struct Case {
     pub body: BodySpec,
     pub schedule: Vec<Act>,
     pub max_conns: u32,
+    /// caller buffer used for every call of the final drain (a caller that always reads into the
+    /// same large buffer); None = the internal buffer
+    #[serde(default)]
+    pub drain_dest: Option<u32>,
 }
 
 pub struct Built {
@@ -130,7 +134,7 @@ fn test(c: &Case) -> TestResult {
 
     drive_schedule(&mut d, &c.schedule, &sm.order, &truth)?;
     // ---- quiescence: keep parsing / consuming / advancing until nothing changes
-    quiesce(&mut d, &sm.order, &truth)?;
+    quiesce_with(&mut d, &sm.order, &truth, c.drain_dest.map(|x| x as usize))?;
     vensure!(d.error.is_none(), "stream-unexpected-error", "parse failed with {:?} on well-formed traffic", d.error);
 
     // ---- completeness
@@ -174,10 +178,10 @@ pub fn drive_schedule(d: &mut StreamDrv, schedule: &[Act], order: &[u8], truth: 
                 if !d.make_room(truth)? {
                     unstick(d, order, truth)?;
                 }
-                d.parse(((*n).max(1) as usize).saturating_mul(mult), dest.map(usize::from), truth)?;
+                d.parse(((*n).max(1) as usize).saturating_mul(mult), dest.map(|d| d as usize), truth)?;
             },
             Act::Parse0 { dest } => {
-                d.parse(0, dest.map(usize::from), truth)?;
+                d.parse(0, dest.map(|d| d as usize), truth)?;
             },
             Act::ConsumeStream(k) => d.consume_stream(*k as usize, truth)?,
             Act::Compress => d.compress(truth)?,
@@ -236,6 +240,10 @@ pub fn unstick(d: &mut StreamDrv, order: &[u8], t: &Truth) -> Result<(), Fail> {
 }
 
 pub fn quiesce(d: &mut StreamDrv, order: &[u8], t: &Truth) -> Result<(), Fail> {
+    quiesce_with(d, order, t, None)
+}
+
+pub fn quiesce_with(d: &mut StreamDrv, order: &[u8], t: &Truth, dest: Option<usize>) -> Result<(), Fail> {
     let mut rounds = 0;
     loop {
         rounds += 1;
@@ -244,7 +252,7 @@ pub fn quiesce(d: &mut StreamDrv, order: &[u8], t: &Truth) -> Result<(), Fail> {
         if d.error.is_some() {
             return Ok(());
         }
-        d.parse(0, None, t)?;
+        d.parse(0, dest, t)?;
         d.consume_stream(usize::MAX, t)?;
         d.compress(t)?;
         maybe_advance(d, order, t)?;
@@ -256,7 +264,12 @@ pub fn quiesce(d: &mut StreamDrv, order: &[u8], t: &Truth) -> Result<(), Fail> {
 }
 
 pub fn act() -> BoxedStrategy<Act> {
-    let dest = || prop_oneof![3 => Just(None), 2 => prop_oneof![Just(0u16), 1u16..=9, 1u16..=300, 300u16..=9000].prop_map(Some)];
+    // caller buffers: mostly small; occasionally at and beyond the 16-bit limits of a record
+    let dest = || prop_oneof![
+        30 => Just(None),
+        20 => prop_oneof![Just(0u32), 1u32..=9, 1u32..=300, 300u32..=9000].prop_map(Some),
+        1 => prop_oneof![Just(65535u32), Just(65536), Just(65537), Just(70000), Just(131072), Just(131073)].prop_map(Some),
+    ];
     let n = prop_oneof![3 => 1u16..=9, 3 => 1u16..=300, 2 => Just(u16::MAX), 1 => 300u16..=20000];
     prop_oneof![
         6 => (n, dest()).prop_map(|(n, dest)| Act::Feed { n, dest }),
@@ -274,7 +287,7 @@ pub fn schedule() -> BoxedStrategy<Vec<Act>> {
     (proptest::collection::vec(act(), 0..10), 1u16..=400, prop::option::of(1u16..=64))
         .prop_map(|(mut v, n, dest)| {
             if !v.iter().any(|a| matches!(a, Act::Feed { .. })) {
-                v.push(Act::Feed { n, dest });
+                v.push(Act::Feed { n, dest: dest.map(u32::from) });
             }
             v
         })
@@ -304,7 +317,18 @@ pub fn case_strategy() -> BoxedStrategy<Case> {
                 prop_oneof![Just(1u32), 1u32..5000],
             )
         })
-        .prop_map(|(id, role, flags, pre_pairs, entry, buf, body, schedule, max_conns)| Case { id, role, flags, pre_pairs, entry, buf, body, schedule, max_conns })
+        .prop_map(|(id, role, flags, pre_pairs, entry, buf, body, schedule, max_conns)| {
+            // derived (keeps the tuple arity): which caller buffer the final drain uses
+            let drain_dest = match (max_conns as usize + schedule.len() * 7 + id as usize) % 16 {
+                0 => Some(65536u32),
+                1 => Some(131072),
+                2 => Some(65535),
+                3 => Some(70000),
+                4 | 5 => Some(1 + (id as u32 % 300)),
+                _ => None,
+            };
+            Case { id, role, flags, pre_pairs, entry, buf, body, schedule, max_conns, drain_dest }
+        })
         .boxed()
 }
 
